@@ -36,6 +36,8 @@ OUTSIDE = ("that the closed form is the convolution integral (calculus, trusted)
 
 S2 = z3.Real("sqrt2")
 
+FLOAT_SELFCHECK = True
+
 
 def preload():
     import glotaran.builtin.megacomplexes.decay.util  # noqa: F401
